@@ -26,8 +26,11 @@ CHECKS = {
 def load_fragments():
     """checks/cxx_manifest.json fragments written per property ({"text","note","technique","design"})."""
     import glob
+    integrated = set(open(os.path.join(VERIF, "checks", "integrated.txt")).read().split())
     for p in sorted(glob.glob(os.path.join(VERIF, "checks", "c[0-9][0-9]_manifest.json"))):
         pid = os.path.basename(p)[:3].upper()
+        if pid not in integrated:      # built but not yet reviewed / run by the integrator on the current tree
+            continue
         if os.path.exists(os.path.join(VERIF, "checks", pid.lower() + ".py")) and pid not in CHECKS and pid in ids:
             d = json.load(open(p))
             CHECKS[pid] = dict(text=d["text"], note=d["note"], technique=d["technique"], design=d.get("design", "4/" + pid))
